@@ -148,7 +148,11 @@ func CloneNode(node ast.Node) ast.Node {
 			ident = ast.NewIdentifier(ClonePosition(n.Ident.Position), n.Ident.Name)
 		}
 		typ := CloneExpression(n.Type).(*ast.FuncType)
-		return ast.NewFunc(ClonePosition(n.Position), ident, typ, CloneNode(n.Body).(*ast.Block), n.DistFree, n.Format)
+		var body *ast.Block
+		if n.Body != nil {
+			body = CloneNode(n.Body).(*ast.Block)
+		}
+		return ast.NewFunc(ClonePosition(n.Position), ident, typ, body, n.DistFree, n.Format)
 
 	case *ast.Go:
 		return ast.NewGo(ClonePosition(n.Position), CloneExpression(n.Call))
@@ -190,7 +194,11 @@ func CloneNode(node ast.Node) ast.Node {
 		return imp
 
 	case *ast.Label:
-		return ast.NewLabel(ClonePosition(n.Position), CloneExpression(n.Ident).(*ast.Identifier), CloneNode(n.Statement))
+		var statement ast.Node
+		if n.Statement != nil {
+			statement = CloneNode(n.Statement)
+		}
+		return ast.NewLabel(ClonePosition(n.Position), CloneExpression(n.Ident).(*ast.Identifier), statement)
 
 	case *ast.Package:
 		var nn = make([]ast.Node, 0, len(n.Declarations))
@@ -200,7 +208,11 @@ func CloneNode(node ast.Node) ast.Node {
 		return ast.NewPackage(ClonePosition(n.Position), n.Name, nn)
 
 	case *ast.Raw:
-		return ast.NewRaw(ClonePosition(n.Position), n.Marker, n.Tag, CloneNode(n.Text).(*ast.Text))
+		var text *ast.Text
+		if n.Text != nil {
+			text = CloneNode(n.Text).(*ast.Text)
+		}
+		return ast.NewRaw(ClonePosition(n.Position), n.Marker, n.Tag, text)
 
 	case *ast.Return:
 		var values []ast.Expression
@@ -399,7 +411,11 @@ func CloneExpression(expr ast.Expression) ast.Expression {
 			ident = ast.NewIdentifier(ClonePosition(e.Ident.Position), e.Ident.Name)
 		}
 		typ := CloneExpression(e.Type).(*ast.FuncType)
-		expr2 = ast.NewFunc(ClonePosition(e.Position), ident, typ, CloneNode(e.Body).(*ast.Block), e.DistFree, e.Format)
+		var body *ast.Block
+		if e.Body != nil {
+			body = CloneNode(e.Body).(*ast.Block)
+		}
+		expr2 = ast.NewFunc(ClonePosition(e.Position), ident, typ, body, e.DistFree, e.Format)
 
 	case *ast.FuncType:
 		var parameters []*ast.Parameter
@@ -493,5 +509,8 @@ func CloneExpression(expr ast.Expression) ast.Expression {
 
 // ClonePosition returns a copy of position pos.
 func ClonePosition(pos *ast.Position) *ast.Position {
+	if pos == nil {
+		return nil
+	}
 	return &ast.Position{Line: pos.Line, Column: pos.Column, Start: pos.Start, End: pos.End}
 }
